@@ -746,8 +746,39 @@ def unit_views():
     return "\n".join(out)
 
 
+def unit_order():
+    """the order in which `LasWriter.write_points` and `LasAppender.append_points` count the points (`header.grow`) and hand them
+    to the destination: the header written by `close()` after a failed write must not advertise that write's points (C19)"""
+    import ast
+    import inspect
+    import textwrap
+    from laspy.lasappender import LasAppender
+    from laspy.laswriter import LasWriter
+
+    def after_write(fn, write_call):
+        fd = ast.parse(textwrap.dedent(inspect.getsource(fn))).body[0]
+        gi, wi = [], []
+        for idx, st in enumerate(fd.body):       # statements of the method body itself: both calls are unconditional
+            if isinstance(st, ast.Expr) and isinstance(st.value, ast.Call):
+                d = dotted(st.value.func)
+                if d == "self.header.grow":
+                    gi.append(idx)
+                elif d == write_call:
+                    wi.append(idx)
+        if len(gi) != 1 or len(wi) != 1:
+            raise TranslationError(f"{fn.__qualname__}: expected one unconditional `self.header.grow(...)` and one `{write_call}(...)`")
+        return gi[0] > wi[0]
+
+    w = after_write(LasWriter.write_points, "self.point_writer.write_points")
+    a = after_write(LasAppender.append_points, "self.points_appender.append_points")
+    return "\n".join(["namespace Order",
+                      f"def writerCountsAfterWrite : Bool := {'true' if w else 'false'}",
+                      f"def appenderCountsAfterWrite : Bool := {'true' if a else 'false'}",
+                      "end Order", ""])
+
+
 FUN_UNITS = [("GE", unit_ge), ("Compression", unit_compression), ("Dims", unit_dims), ("Copc", unit_copc), ("Reader", unit_reader),
-             ("Views", unit_views)]
+             ("Views", unit_views), ("Order", unit_order)]
 
 
 # --------------------------------------------------------------------------
